@@ -159,67 +159,94 @@ fn is_pull(k: u8) -> bool {
     k == P_SINGLE || k == P_CHUNK || k == P_BUF || k == P_NEXT
 }
 
-/// Two threads; thread t performs `nops[t]` operations drawn from `mask[t]`.
+/// Runs the operations of thread `t` on its own iterator object. First pass: symbolic choices;
+/// second pass (`redo`): the choices recorded in `res` are repeated.
+fn thread_run<P: Iterator<Item = usize>>(
+    t: usize,
+    solo: bool,
+    it: &ConIterOfIter<usize, P>,
+    mask: u8,
+    nops: usize,
+    nmax: usize,
+    len: usize,
+    res: &mut [Res; OPS],
+    redo: bool,
+) {
+    tbmc::start_thread(t, solo, it);
+    let mut o = 0;
+    while o < OPS {
+        if o < nops {
+            tbmc::start_op(o as u8);
+            if redo {
+                let r = redo_op(it, &res[o], mask);
+                assert!(
+                    r.some == res[o].some && r.begin == res[o].begin && r.count == res[o].count,
+                    "harness: the second pass of a thread must repeat the first"
+                );
+            } else {
+                res[o] = do_op(it, mask, nmax, len);
+            }
+        }
+        o += 1;
+    }
+    tbmc::end_thread(t);
+}
+
 fn run2(mask: [u8; 2], nops: [usize; 2], lmax: usize, nmax: usize, hb: bool) {
+    run_n([mask[0], mask[1], 0, 0], [nops[0], nops[1], 0, 0], 2, lmax, nmax, hb);
+}
+
+/// `nt` threads (2..=4); thread t performs `nops[t]` operations drawn from `mask[t]`.
+fn run_n(mask: [u8; 4], nops: [usize; 4], nt: usize, lmax: usize, nmax: usize, hb: bool) {
     crate::hook::link();
     let len: usize = kani::any();
     kani::assume(len <= lmax);
     let hint: u8 = kani::any();
     kani::assume(hint < 3);
     // one iterator object per run of a thread (identical layout; in trace mode nothing is shared through
-    // the objects): the crate code is monomorphised separately for each, see tbmc::TProbeA/B/C
-    let it_a = TProbeA { len, hint }.into_con_iter();
-    let it_b = TProbeB { len, hint }.into_con_iter();
-    let it_c = TProbeC { len, hint }.into_con_iter();
-    tbmc::guess_and_validate(len, hb);
-    let mut res = [[R0; OPS]; 2];
-    // pass 1, thread 0 (in-crate checks of this run are not believed: the guess is not yet accepted by thread 1)
-    tbmc::start_thread(0, false, &it_a);
-    let mut o = 0;
-    while o < OPS {
-        if o < nops[0] {
-            tbmc::start_op(o as u8);
-            res[0][o] = do_op(&it_a, mask[0], nmax, len);
-        }
-        o += 1;
+    // the objects): the crate code is monomorphised separately for each, see tbmc::TProbeA*/B/C*
+    let a0 = TProbeA0 { len, hint }.into_con_iter();
+    let a1 = TProbeA1 { len, hint }.into_con_iter();
+    let a2 = TProbeA2 { len, hint }.into_con_iter();
+    let b = TProbeB { len, hint }.into_con_iter();
+    let c0 = TProbeC0 { len, hint }.into_con_iter();
+    let c1 = TProbeC1 { len, hint }.into_con_iter();
+    let c2 = TProbeC2 { len, hint }.into_con_iter();
+    tbmc::guess_and_validate(len, hb, nt);
+    let mut res = [[R0; OPS]; 4];
+    let last = nt - 1;
+    // pass 1: the in-crate checks of the non-last threads are not believed (ignorefn=TProbeA): they run
+    // against a guess the later threads have not accepted yet
+    if last > 0 {
+        thread_run(0, false, &a0, mask[0], nops[0], nmax, len, &mut res[0], false);
     }
-    tbmc::end_thread(0);
-    // thread 1 = the last thread: may continue on its own after the trace; everything it meets has been accepted
-    tbmc::start_thread(1, true, &it_b);
-    let mut o = 0;
-    while o < OPS {
-        if o < nops[1] {
-            tbmc::start_op(o as u8);
-            res[1][o] = do_op(&it_b, mask[1], nmax, len);
-        }
-        o += 1;
+    if last > 1 {
+        thread_run(1, false, &a1, mask[1], nops[1], nmax, len, &mut res[1], false);
     }
-    tbmc::end_thread(1);
-    // pass 2, thread 0 again on the now fully accepted trace: same operations (the symbolic choices are
-    // replayed from the results of pass 1), so that its in-crate checks are exact
-    tbmc::start_thread(0, false, &it_c);
-    let mut o = 0;
-    while o < OPS {
-        if o < nops[0] {
-            tbmc::start_op(o as u8);
-            let r = redo_op(&it_c, &res[0][o], mask[0]);
-            assert!(r.some == res[0][o].some && r.begin == res[0][o].begin && r.count == res[0][o].count,
-                "harness: the second pass of thread 0 must repeat the first");
-        }
-        o += 1;
+    if last > 2 {
+        thread_run(2, false, &a2, mask[2], nops[2], nmax, len, &mut res[2], false);
     }
-    tbmc::end_thread(0);
+    // the last thread may continue on its own after the trace; everything it meets has been accepted
+    thread_run(last, true, &b, mask[last], nops[last], nmax, len, &mut res[last], false);
+    // pass 2: the other threads again, on the now fully accepted trace: their in-crate checks are exact
+    if last > 0 {
+        thread_run(0, false, &c0, mask[0], nops[0], nmax, len, &mut res[0], true);
+    }
+    if last > 1 {
+        thread_run(1, false, &c1, mask[1], nops[1], nmax, len, &mut res[1], true);
+    }
+    if last > 2 {
+        thread_run(2, false, &c2, mask[2], nops[2], nmax, len, &mut res[2], true);
+    }
     tbmc::finish();
-    core::mem::forget(it_a);
-    core::mem::forget(it_b);
-    core::mem::forget(it_c);
+    core::mem::forget((a0, a1, a2, b, c0, c1, c2));
 
     // ---- everything below is about a real execution --------------------------------------------
-    let skip_used = (mask[0] | mask[1]) & B_SKIP != 0;
+    let skip_used = (mask[0] | mask[1] | mask[2] | mask[3]) & B_SKIP != 0;
     let mut deliv = [0u8; 8];
     let mut any_none = false;
     let mut t = 0;
-    while t < 2 {
+    while t < nt {
         let mut o = 0;
         while o < OPS {
             let r = res[t][o];
@@ -266,12 +293,12 @@ fn run2(mask: [u8; 2], nops: [usize; 2], lmax: usize, nmax: usize, hb: bool) {
     }
     // pairwise real-time order
     let mut ta = 0;
-    while ta < 2 {
+    while ta < nt {
         let mut oa = 0;
         while oa < OPS {
             let a = res[ta][oa];
             let mut tb = 0;
-            while tb < 2 {
+            while tb < nt {
                 let mut ob = 0;
                 while ob < OPS {
                     let b = res[tb][ob];
@@ -407,4 +434,20 @@ fn t2_hb_buf_single() {
 #[kani::unwind(12)]
 fn t2_hb_single_buf() {
     run2([B_SINGLE, B_BUF], [1, 1], 2, 2, true);
+}
+
+// @verif family=TBMC hook=1 ignorefn=TProbeA thorough=C07,C06,C01,C02 timeout=5400 mem=24
+// @bounds kind=ConIterOfIter<usize,TProbe*> len<=2; FOUR threads: next_id_and_value() | skip_to_end() | next_id_and_value() | next_id_and_value(); <=7 events per thread + solo continuation of the last; happens-before, exclusivity, exactly-once, index fidelity (the window between the two stores of skip_to_end)
+#[kani::proof]
+#[kani::unwind(12)]
+fn t4_single_skip_single_single() {
+    run_n([B_SINGLE, B_SKIP, B_SINGLE, B_SINGLE], [1, 1, 1, 1], 4, 2, 2, true);
+}
+
+// @verif family=TBMC hook=1 ignorefn=TProbeA thorough=C01,C04,C09 timeout=3600 mem=24
+// @bounds kind=ConIterOfIter<usize,TProbe*> len<=2; THREE threads x 1 next_id_and_value(); <=7 events per thread + solo continuation of the last; all interleavings
+#[kani::proof]
+#[kani::unwind(12)]
+fn t3_single_single_single() {
+    run_n([B_SINGLE, B_SINGLE, B_SINGLE, 0], [1, 1, 1, 0], 3, 2, 2, false);
 }
